@@ -31,9 +31,10 @@ def without_prefix_plain_extension(k: int) -> bool:
 
 def custom_table_prefix_and_extension(k: int, lo: int, hi: int) -> bool:
     """
-    pre: -5 <= k <= 5 and -2 <= lo < 0 and 0 < hi <= 2
+    pre: -5 <= k <= 5 and -3 <= lo <= hi <= 3 and not (lo == 0 and hi == 0)
     post: _
     """
+    # two-sided tables (lo < 0 < hi) and ONE-sided tables (all keys negative, or all positive: exponent 0 lies outside the table)
     exp = 3 * k
     table = {3 * i: f'<{i}>' for i in range(lo, hi + 1) if i != 0}
     sf = ScientificFloat(1.0, use_exp_prefix=True, exp_prefixes=table)
